@@ -278,7 +278,7 @@ func ruleResolveOnce(ctx *Ctx, rule string) {
 			continue
 		}
 		found := false
-		for _, b := range f.Blocks {
+		for _, b := range frameBlocks(f) {
 			for _, in := range b.Instrs {
 				// the state transition: a call of resolve, or a store to p.caller
 				isTransition := ssaq.StaticCalleeName(in) == "capnp.(*Promise).resolve"
